@@ -9,6 +9,7 @@ package main
 // C10  pkg dec of mutated encodings and of arbitrary bytes after every token: never `panic`.
 
 import (
+	"strconv"
 	"fmt"
 	"math/rand"
 	"strings"
@@ -389,6 +390,14 @@ func c10Gen(tier string, rng *rand.Rand, emit func(Case)) {
 			}
 		}
 	}
+	// hostile packet sizes: an ENVCHANGE announcing a size the client cannot use, then the client sends
+	// (`rx … send` lines of c02.go: the size in force stays usable, the send neither panics nor loops)
+	for _, v := range []string{"0", "1", "4", "7", "8", "9", "-1", "-512", "65535", "65536", "65543", "70000", "2147483648", "4294967296", "99999999999999999999", "1e3", "", " 512", "512 "} {
+		body := append(rEnv([3]string{"\x04", v, "512"}).bytes, rDone(0, 1).bytes...)
+		emit(Case{Line: fmt.Sprintf("rx 0 1 b1:%s send", hx(body)), Kind: "hostile-packet-size"})
+		body2 := append(rEnv([3]string{"\x03", "utf8", ""}, [3]string{"\x04", v, "512"}, [3]string{"\x04", "2048", "512"}).bytes, rDone(0, 1).bytes...)
+		emit(Case{Line: fmt.Sprintf("rx 1 0 b1:%s send", hx(body2)), Kind: "hostile-packet-size"})
+	}
 	// packet level: all header values incl. length < 8 (c14.go)
 	rdrawGen(tier, rng, emit)
 	// value level: every data type with every data length 0..255 (c10values.go)
@@ -405,6 +414,9 @@ func c10Impl(line string) string {
 	if strings.HasPrefix(line, "mem ") {
 		return memImpl(line)
 	}
+	if strings.HasPrefix(line, "rx ") {
+		return rxImpl(line)
+	}
 	return pkgImpl(line)
 }
 
@@ -415,6 +427,18 @@ func c10Oracle(line, out string) string {
 	if strings.HasPrefix(line, "mem ") {
 		if out != "mem ok" {
 			return "no server input makes a parser allocate memory out of proportion to the bytes received"
+		}
+		return ""
+	}
+	if strings.HasPrefix(line, "rx ") {
+		if strings.Contains(out, "S=panic") || strings.Contains(out, "S=blocked") || out == "panic" || out == "timeout" {
+			return "no server input makes the client crash or hang on its next send (an unusable packet size is never put in force)"
+		}
+		if i := strings.Index(out, " PS="); i >= 0 {
+			ps, _ := strconv.Atoi(strings.Fields(out[i+4:])[0])
+			if ps < 9 || ps > 65535 {
+				return "no server input makes the client crash or hang on its next send (an unusable packet size is never put in force)"
+			}
 		}
 		return ""
 	}
